@@ -16,5 +16,5 @@ CONSTANTS
   MaxRestarts = 1
 INIT SimInit
 NEXT SimNext
-INVARIANTS Export Mirror Bounded Gate NoConflict QuotaRetried Complete VerbatimBad
+INVARIANTS Export Mirror Bounded Gate NoConflict QuotaRetried Complete PosCovered VerbatimBad
 CHECK_DEADLOCK FALSE
